@@ -446,13 +446,35 @@ func init() {
 					}
 				}
 			}
+			// "across separate runs with one key file": three consecutive runs of the real redact
+			// command over one symbolic file system; the key in use when processing starts must be the
+			// key the file holds (so ciphertexts of run 1, which creates the file, match later runs)
+			j := &Job{Name: "redact-x3", Harness: "H_c11", Lines: map[string]*Template{}, NoNative: true, Params: map[string]string{
+				"subcommand": "redact", "fs.kinds": "absent,file", "fixflags": "encrypt-file-mode"}}
+			j.cutSet = map[string]bool{}
+			for _, c := range cliCut {
+				j.cutSet[c] = true
+			}
+			j.snapshot = []string{"encryptionKey", "shouldEncrypt"}
+			jobs = append(jobs, j)
 			return jobs
+		},
+		Post: func(cr *checkRun) {
+			keyPost(cr)
+			var keep []Obligation
+			for _, ob := range cr.extraOb {
+				if strings.Contains(ob.ID, "key-in-use") {
+					keep = append(keep, ob)
+				}
+			}
+			cr.extraOb = keep
 		},
 		Functions: append(append([]string{}, walkerFunctions...), "Encrypt", "keysetHandleFromRawKey"),
 		Witness:   []string{"emitted"},
 		Bounds: map[string]any{
 			"templates": "engine/spec.go corpus (quick: every third template), each run in placeholder and in encrypt mode on the same symbolic line",
 			"failures":  "unusable key material (any length other than 64 bytes) installed through the API on 5 representative lines",
+			"runs":      "three consecutive runs of the real redact command with --encrypt over one symbolic file system (key file absent or present): the key in use at the first processing call equals the decoded key file content in every run",
 			"key":       "arbitrary 64 bytes",
 		},
 		Assumptions: []string{"non-empty literals (quick)", "injectivity follows from Dec(Enc(m))=m and the injectivity of base64 (contracts)"},
@@ -462,7 +484,7 @@ func init() {
 		ID: "C11", Title: "Key-file lifecycle: create once, never overwrite, refuse unusable keys",
 		Jobs: func(e *Engine, tier string) []*Job {
 			j := &Job{Name: "redact-x3", Harness: "H_c11", Lines: map[string]*Template{}, NoNative: true, Params: map[string]string{
-				"subcommand": "redact", "fs.kinds": "absent,file,dir,staterror", "fixflags": "encrypt-file-mode"}}
+				"subcommand": "redact", "fs.kinds": "absent,file,dir,staterror,special", "fixflags": "encrypt-file-mode"}}
 			j.cutSet = map[string]bool{}
 			for _, c := range cliCut {
 				j.cutSet[c] = true
@@ -475,7 +497,7 @@ func init() {
 		Functions: []string{"main$1", "FileExists", "GenerateKey", "WriteKeyToFile", "ReadKeyFromFile", "SetEncryptionKey", "SetShouldEncrypt"},
 		Bounds: map[string]any{
 			"runs":        "up to 3 consecutive runs of the real redact command over the same symbolic file system (a failing run ends the sequence)",
-			"key_path":    "initial state chosen by the solver: absent / regular file with arbitrary content / directory / status unreadable; content classes (valid, valid+newline, empty, short, long, non-base64) are not enumerated: validity is the predicate 'base64-decodes to 64 bytes' over arbitrary content",
+			"key_path":    "initial state chosen by the solver: absent / regular file with arbitrary content / directory / status unreadable / device-like special file (exists, not regular, accepts writes, reads back empty); content classes (valid, valid+newline, empty, short, long, non-base64) are not enumerated: validity is the predicate 'base64-decodes to 64 bytes' over arbitrary content",
 			"flags":       "file input + --outputFile + --encrypt with arbitrary key path (other flags at their defaults)",
 			"outside":     "distinctness of generated keys (quality of crypto/rand), umask / ACL semantics, concurrent runs",
 		},
